@@ -89,7 +89,7 @@ def gen_case(rng, tier="quick"):
                "mean_field_tempo", "pt_tempo", "gibbs_tempo") \
             and rng.random() < 0.05:
         # a long computation: many progress updates, many timer generations
-        case["steps"] = rng.randrange(40, 131)
+        case["steps"] = rng.randrange(40, 131 if tier == "quick" else 300)
         if api in ("tempo", "pt_tempo", "gibbs_tempo", "mean_field_tempo"):
             # every evaluation of the spectral density is a yield point
             # there: keep the event log bounded
@@ -215,10 +215,6 @@ def prepare_worker():
                 _LIB["%s-%d" % (c, n)] = models.make_pt(c, steps=n, dkmax=2)
             _LIB["z2-%d" % n] = models.make_pt("z", steps=n, dkmax=2,
                                                 alpha=0.05)
-        # for the long computations
-        _LIB["z-long"] = models.make_pt("z", steps=130, dkmax=3)
-        _LIB["x-long"] = models.make_pt("x", steps=130, dkmax=2)
-        _LIB["z2-long"] = models.make_pt("z", steps=130, dkmax=2, alpha=0.05)
 
 
 class _Env:
@@ -255,6 +251,9 @@ def _install(sim):
     if callable(getattr(U, "sleep", None)):
         U.sleep = lambda s: sim.wait_until(lambda: False, s, "time.sleep")
     simexec.install_executors(B)
+    # locks / events that the modules created when they were imported
+    env.adopted = simsched.adopt_module_sync(U) \
+        + simsched.adopt_module_sync(B)
     env.stream = simsched.RecordingStream(sim)
     env.real_stdout = sys.stdout
     sys.stdout = env.stream
@@ -337,6 +336,14 @@ def _pts(case, n, exact=False):
     if exact:
         names = ["%s-%d" % (nm, n) for nm in names]
     elif n > 6:
+        # long computations: built in the run itself (pure data, no progress
+        # reporting involved: progress_type is 'silent' in make_pt)
+        for nm in names:
+            if nm + "-long" not in _LIB:
+                _LIB[nm + "-long"] = models.make_pt(
+                    "z" if nm.startswith("z") else "x", steps=n,
+                    dkmax=3 if nm == "z" else 2,
+                    alpha=0.05 if nm == "z2" else 0.1)
         names = [nm + "-long" for nm in names]
     pts = [_LIB[nm] for nm in names]
     if f.get("kind") in ("cap", "shape"):
